@@ -226,11 +226,7 @@ var stateMonotone = map[string]string{
 	"Modules.expandingGrouping":      "in-progress set: every insertion is deleted again before the inserting activation returns, so it is empty between runs",
 	"typeDictionary.dict":            "load-monotone: typedefs of accepted statements, keyed by their node (adopt)",
 	"typeDictionary.resolving":       "in-progress set: deleted by a defer in the inserting activation",
-	"typeDictionary.typeErrs":        "memo tied to Type.YangType: written only together with it (MEMO.ERR), and a resolved type never changes",
 	"identityDictionary.dict":        "rebuilt by every run: each identity is re-filed under its module:name key (same key, same value)",
-	"Type.YangType":                  "memo: the resolved type of a type statement is a function of the loaded typedefs it names, which cannot change once resolved (typedefs are never removed or replaced)",
-	"Typedef.YangType":               "memo: as Type.YangType",
-	"Identity.Values":                "every run first appends each identity to its bases' lists and then replaces every list by the de-duplicated, totally sorted closure: re-running over the previous result yields the same set and order",
 	"Import.Module":                  "re-linked by every run (includes is reset, so include() visits every module again)",
 	"Include.Module":                 "re-linked by every run",
 	"Module.Modules":                 "set by add to the owning set; constant afterwards",
@@ -254,12 +250,13 @@ func ruleStateReset(c *Ctx) []Obligation {
 	// resets: stores of a fresh value to ms.F in Process (directly or through a callee whose only effect on F is a fresh store)
 	// that dominate every other call in Process
 	reset := map[string]string{}
+	var registries []memoRegistry
 	firstCall := func() ssa.Instruction {
 		var first ssa.Instruction
 		for _, in := range proc.Blocks[0].Instrs {
 			if ci, ok := in.(ssa.CallInstruction); ok {
 				cal := ci.Common().StaticCallee()
-				if cal != nil && c.isRepoFn(cal) && !c.isPureReset(cal) {
+				if cal != nil && c.isRepoFn(cal) && !c.isPureReset(cal) && c.registryReset(cal) == nil {
 					first = in
 					break
 				}
@@ -285,7 +282,23 @@ func ruleStateReset(c *Ctx) []Obligation {
 					reset[st] = c.InstrPos(x)
 				}
 			}
+			if cal != nil {
+				if reg := c.registryReset(cal); reg != nil {
+					for k, lf := range reg.cleared {
+						reset[k] = c.InstrPos(x)
+						registries = append(registries, memoRegistry{field: k, list: lf, resetFn: cal})
+					}
+					for _, k := range reg.fresh {
+						reset[k] = c.InstrPos(x)
+					}
+				}
+			}
 		}
+	}
+	// memos cleared through a registry: every store of a memo must also register the object
+	sort.Slice(registries, func(i, j int) bool { return registries[i].field < registries[j].field })
+	for _, rg := range registries {
+		obs = append(obs, c.memoRegistered(R, rg)...)
 	}
 	var keys []string
 	for k := range written {
@@ -297,6 +310,8 @@ func ruleStateReset(c *Ctx) []Obligation {
 		switch {
 		case reset[k] != "":
 			obs = append(obs, ok(R, con, reset[k], "stored with a fresh value at the top of Process, before the first call that reads it"))
+		case c.rebuiltInWriter(k) != "":
+			obs = append(obs, ok(R, con, c.Pos(proc.Pos()), c.rebuiltInWriter(k)))
 		case stateMonotone[k] != "":
 			obs = append(obs, just(R, con, c.Pos(proc.Pos()), stateMonotone[k]))
 		default:
@@ -328,6 +343,230 @@ func ruleStateReset(c *Ctx) []Obligation {
 		}
 	}
 	return obs
+}
+
+// rebuiltInWriter: the field is written by exactly one function, which first clears it (a nil store inside
+// a loop that visits the objects) and only afterwards, in later loops, stores anything else into it.
+func (c *Ctx) rebuiltInWriter(key string) string {
+	parts := strings.SplitN(key, ".", 2)
+	owner := c.Named("yang", parts[0])
+	if owner == nil || len(parts) != 2 {
+		return ""
+	}
+	f := FieldVar(owner, parts[1])
+	if f == nil {
+		return ""
+	}
+	var writer *ssa.Function
+	for _, fn := range c.Funcs {
+		if fn.Pkg == nil || shortPkg(fn.Pkg.Pkg.Path()) != "yang" {
+			continue
+		}
+		for _, st := range storesToField(fn, f) {
+			if al, isAl := rootOf(st.Addr).(*ssa.Alloc); isAl {
+				if _, _, b := fieldOf(st.Addr); b == ssa.Value(al) {
+					continue // field of an object under construction
+				}
+			}
+			if writer != nil && writer != rootFn(fn) {
+				return ""
+			}
+			writer = rootFn(fn)
+		}
+	}
+	if writer == nil {
+		return ""
+	}
+	var clears, others []*ssa.Store
+	for _, fn := range c.Funcs {
+		if rootFn(fn) != writer {
+			continue
+		}
+		for _, st := range storesToField(fn, f) {
+			if fn != writer {
+				return "" // stores inside closures: order not decided here
+			}
+			if isNilConst(st.Val) {
+				clears = append(clears, st)
+			} else {
+				others = append(others, st)
+			}
+		}
+	}
+	if len(clears) == 0 || len(others) == 0 {
+		return ""
+	}
+	for _, o := range others {
+		covered := false
+		for _, cl := range clears {
+			// the outermost loop around the clearing store
+			h := loopHeaderOf(cl.Block())
+			for h != nil && h.Idom() != nil {
+				outer := loopHeaderOf(h.Idom())
+				if outer == nil || !blockReaches(h, outer, nil) {
+					break
+				}
+				h = outer
+			}
+			if h != nil && h.Dominates(o.Block()) && !blockReaches(o.Block(), cl.Block(), nil) {
+				covered = true
+			}
+		}
+		if !covered {
+			return ""
+		}
+	}
+	return fmt.Sprintf("rebuilt by its only writer %s: %d clearing store(s) in the visiting loops precede every other store (the loops that append and close run after them and cannot return to them)", c.FnName(writer), len(clears))
+}
+
+// A memo registry: objects whose field `field` holds a memo are appended to the slice field `list`
+// of a dictionary, and resetFn walks that list clearing the memo.
+type memoRegistry struct {
+	field   string     // "Type.YangType"
+	list    *types.Var // typeDictionary.resolvedTypes
+	resetFn *ssa.Function
+}
+
+type registryResetInfo struct {
+	cleared map[string]*types.Var // memo field → list field it is cleared through
+	fresh   []string              // receiver fields stored with a fresh map / nil
+}
+
+// registryReset recognises a reset function of the shape
+//
+//	for _, x := range recv.L { x.f = nil }; recv.L = nil; recv.M = map…{}
+//
+// and nothing else (no other stores, no calls but builtins). nil if fn is not of that shape.
+func (c *Ctx) registryReset(fn *ssa.Function) *registryResetInfo {
+	if fn.Blocks == nil || len(fn.Params) == 0 || !c.isRepoFn(fn) {
+		return nil
+	}
+	info := &registryResetInfo{cleared: map[string]*types.Var{}}
+	shape := true
+	eachInstr(fn, func(in ssa.Instruction) {
+		switch x := in.(type) {
+		case *ssa.Store:
+			if _, isAlloc := x.Addr.(*ssa.Alloc); isAlloc {
+				return
+			}
+			owner, f, base := fieldOf(x.Addr)
+			if f == nil {
+				shape = false
+				return
+			}
+			_, isMake := x.Val.(*ssa.MakeMap)
+			zero := isNilConst(x.Val)
+			switch {
+			case isParamN(fn, base, 0) && (isMake || zero):
+				info.fresh = append(info.fresh, fieldKey(owner, f))
+			case zero:
+				// base must be an element of a slice loaded from a field of the receiver
+				var list *types.Var
+				backSlice(base, func(y ssa.Value) bool {
+					if ia, isIA := y.(*ssa.IndexAddr); isIA {
+						if _, lf, lbase := loadedField(ia.X); lf != nil && isParamN(fn, lbase, 0) {
+							list = lf
+						}
+					}
+					return true
+				})
+				if list == nil {
+					shape = false
+					return
+				}
+				info.cleared[fieldKey(owner, f)] = list
+			default:
+				shape = false
+			}
+		case *ssa.MapUpdate:
+			shape = false
+		case ssa.CallInstruction:
+			if _, isB := x.Common().Value.(*ssa.Builtin); !isB {
+				shape = false
+			}
+		}
+	})
+	if !shape || len(info.cleared) == 0 {
+		return nil
+	}
+	return info
+}
+
+// memoRegistered: every non-nil store to the memo field outside the reset function is paired, in the same
+// function and on the same paths, with an append of the same object to the registry list.
+func (c *Ctx) memoRegistered(R string, rg memoRegistry) []Obligation {
+	var obs []Obligation
+	parts := strings.SplitN(rg.field, ".", 2)
+	owner := c.Named("yang", parts[0])
+	if owner == nil {
+		return []Obligation{undecided(R, "memo registry for "+rg.field, "-", "owner type not found")}
+	}
+	f := FieldVar(owner, parts[1])
+	n := 0
+	for _, fn := range c.Funcs {
+		if fn == rg.resetFn {
+			continue
+		}
+		for _, st := range storesToField(fn, f) {
+			if isNilConst(st.Val) {
+				continue
+			}
+			if al, isAl := rootOf(st.Addr).(*ssa.Alloc); isAl && !derivesFrom(st.Addr, func(x ssa.Value) bool { _, isP := x.(*ssa.Parameter); return isP }) {
+				_ = al // a struct under construction (copy): not a memo on a shared node
+				if _, _, b := fieldOf(st.Addr); b == ssa.Value(al) {
+					continue
+				}
+			}
+			n++
+			con := fmt.Sprintf("%s: the memo %s is registered in %s when it is set", c.FnName(fn), rg.field, rg.list.Name())
+			if n > 1 {
+				con = fmt.Sprintf("%s #%d", con, n)
+			}
+			_, _, obj := fieldOf(st.Addr)
+			registered := false
+			for _, st2 := range storesToField(fn, rg.list) {
+				call, isC := st2.Val.(*ssa.Call)
+				if !isC {
+					continue
+				}
+				if b, isB := call.Call.Value.(*ssa.Builtin); !isB || b.Name() != "append" || len(call.Call.Args) < 2 {
+					continue
+				}
+				for _, el := range variadicElems(call.Call.Args[1]) {
+					if sameObject(el, obj) && (st2.Block() == st.Block() || dominates(st, st2) && postDominatesReturnFree(st, st2)) {
+						registered = true
+					}
+				}
+			}
+			if registered {
+				obs = append(obs, ok(R, con, c.InstrPos(st), "append(d."+rg.list.Name()+", obj) in the same block as the memo store"))
+			} else {
+				obs = append(obs, bad(R, con, c.InstrPos(st), fmt.Sprintf("the memo is set without registering the object in %s: %s never clears it, so a later Process run (after more modules were loaded) reuses a result computed from the earlier module set", rg.list.Name(), c.FnName(rg.resetFn))))
+			}
+		}
+	}
+	if n == 0 {
+		obs = append(obs, undecided(R, "memo registry for "+rg.field, "-", "no store to the memo field found"))
+	}
+	return obs
+}
+
+// postDominatesReturnFree: b is reached from a on every path (no return between them): approximated by
+// 'a dominates b and every path from a's block to an exit passes b's block'.
+func postDominatesReturnFree(a, b ssa.Instruction) bool {
+	if a.Block() == b.Block() {
+		return true
+	}
+	// any Return reachable from a's block avoiding b's block?
+	avoid := map[*ssa.BasicBlock]bool{b.Block(): true}
+	for _, blk := range a.Parent().Blocks {
+		if _, isR := blk.Instrs[len(blk.Instrs)-1].(*ssa.Return); isR {
+			if blockReaches(a.Block(), blk, avoid) {
+				return false
+			}
+		}
+	}
+	return true
 }
 
 // isPureReset: fn only stores fresh values into fields of its receiver (e.g. ClearEntryCache), apart from locking.
